@@ -33,6 +33,24 @@ func caseOf(facetName string, raw json.RawMessage) (v *spec.V, c *spec.T, d *cod
 	return nil, nil, nil
 }
 
+// mixedFailure: the decoder could not build a collection whose members came
+// back with different types, although the type-flow model predicted exactly
+// that for this input. The decoder either panics in the collection
+// constructor ("inconsistent ... element types") or, once it checks first,
+// reports "all ... elements must have the same type".
+func mixedFailure(f *facet.Failure) bool {
+	if f.Data["mixed"] != "true" {
+		return false
+	}
+	switch f.Kind {
+	case "decode-panic":
+		return strings.Contains(f.Msg, "inconsistent") && strings.Contains(f.Msg, "element types")
+	case "decode-error":
+		return strings.Contains(f.Msg, "elements must have the same type")
+	}
+	return false
+}
+
 func init() {
 	// The result type differs from the original only below a null / empty
 	// position whose constraint contains a placeholder: the check emits this
@@ -49,10 +67,7 @@ func init() {
 	// A collection mixing such a member with one that carries its type makes
 	// the decoder's collection constructor panic on the encoder's own output.
 	facet.RegisterKnown("c15MixedMembersPanic", func(facetName string, raw json.RawMessage, f *facet.Failure) bool {
-		if f.Kind != "decode-panic" || facetName != "roundtrip/value" || f.Data["mixed"] != "true" {
-			return false
-		}
-		if !strings.Contains(f.Msg, "inconsistent") || !strings.Contains(f.Msg, "element types") {
+		if facetName != "roundtrip/value" || !mixedFailure(f) {
 			return false
 		}
 		v, c, _ := caseOf(facetName, raw)
